@@ -152,7 +152,7 @@ func initAllowed(path string) bool {
 		"hash/fnv", "encoding/binary", "context", "internal/oserror", "io/fs", "internal/bytealg",
 		"math/bits", "slices", "cmp", "hash", "internal/itoa", "unicode/utf16", "internal/stringslite",
 		"container/list", "go.etcd.io/etcd/raft/v3/quorum", "go.etcd.io/etcd/raft/v3/tracker",
-		"go.etcd.io/etcd/raft/v3/confchange", "go.etcd.io/etcd/raft/v3":
+		"go.etcd.io/etcd/raft/v3/confchange":
 		return true
 	}
 	if strings.HasPrefix(path, "github.com/innovationb1ue/RedisGO") {
